@@ -45,5 +45,6 @@ instance : Trig Float where
   trunc := floatToInt
   ofInt := Float.ofInt
   pymod := pymodFloat
+  powi := fun x n => Float.pow x n.toFloat
 
 end Astral
